@@ -786,6 +786,18 @@ Section Others.
     pose proof (sane_run o_step _ _ tt o_inv (o_cd_publish which) o_inv_step w o ltac:(rewrite Hw; exact Hpl) ltac:(intros n _; left; rewrite Hw; reflexivity)) as H.
     destruct (run _ w o) as [[[r w'] o'] tr]. destruct H as ([] & _ & HI & _). exact HI.
   Qed.
+
+  (** The same for ANY program whose calls the monitor accepts (the stack-level
+      front ends wrap the directory-level publication in further calls). *)
+  Theorem others_gen {A} (p : prog A) Q w o : wpv o_step p Q tt -> w_fs w = f0 -> names_plain f0 ->
+    let '(_, w', _, _) := run p w o in
+    forall n, n <> name ->
+      name_of (w_fs w') (cd_base d ++ [n]) = name_of f0 (cd_base d ++ [n]) \/ name_of (w_fs w') (cd_base d ++ [n]) = None.
+  Proof.
+    intros Hp Hw Hpl.
+    pose proof (sane_run o_step p Q tt o_inv Hp o_inv_step w o ltac:(rewrite Hw; exact Hpl) ltac:(intros n _; left; rewrite Hw; reflexivity)) as H.
+    destruct (run p w o) as [[[r w'] o'] tr]. destruct H as ([] & _ & HI & _). exact HI.
+  Qed.
 End Others.
 
 (** * The same through the stack API, for a plain write cache *)
